@@ -1,6 +1,7 @@
 package checks
 
 import (
+	"time"
 	"bytes"
 	"errors"
 	"fmt"
@@ -701,14 +702,25 @@ func errClass(err error) string {
 	}
 }
 
+// stuckViol handles a call that outlived the watchdog. The watchdog alone is a wall-clock signal (machine load, GC
+// pressure), so the case is abandoned either way, but C08 is reported only when the goroutine profile confirms that
+// the code under test is parked for good (sim.ConfirmStuck); otherwise the case counts as inconclusive.
+func (m *lm) stuckViol(what string, err error) {
+	m.stuck = err
+	if ok, stacks := sim.ConfirmStuck(5, 400*time.Millisecond); ok {
+		m.addViol("C08", "stuck:"+what, "%s did not return and every goroutine inside the node is parked, unchanged over 5 profiles:\n%s", what, stacks)
+		return
+	}
+	m.label("watchdog-expired-but-node-progressing(inconclusive)")
+}
+
 func (m *lm) noteResult(prop string, r sim.Result, what string) {
 	m.label("result:" + what + ":" + errClass(r.Err))
 	if r.Err == nil {
 		return
 	}
 	if errors.Is(r.Err, sim.ErrStuck) {
-		m.addViol("C08", "stuck:"+what, "%s did not return", what)
-		m.stuck = r.Err
+		m.stuckViol(what, r.Err)
 	} else if sim.IsPanic(r.Err) {
 		m.addViol("C08", "panic:"+what, "%s panicked instead of returning: %v", what, r.Err)
 	}
@@ -1068,8 +1080,7 @@ func (m *lm) opBalance() string {
 		res := m.w.Apply(bop)
 		got, err := res.Balance, res.Err
 		if errors.Is(err, sim.ErrStuck) {
-			m.addViol("C08", "stuck:balance", "CalculateBalance did not return")
-			m.stuck = err
+			m.stuckViol("balance", err)
 			return "balance STUCK"
 		}
 		if sim.IsPanic(err) {
